@@ -54,7 +54,7 @@ extern "C" {
  * @returns This function returns the field value from the PDU.
  */
 uint64_t Avtp_GetField(const Avtp_FieldDescriptor_t* fieldDescriptors,
-        uint8_t numFields, uint8_t* pdu, uint8_t field);
+        uint8_t numFields, uint8_t* pdu, uint32_t field);
 
 /**
  * Sets a data field in a 1722 frame to a specified value and handles necessary
@@ -66,7 +66,7 @@ uint64_t Avtp_GetField(const Avtp_FieldDescriptor_t* fieldDescriptors,
  * @param value The value to set.
  */
 void Avtp_SetField(const Avtp_FieldDescriptor_t* fieldDescriptors,
-        uint8_t numFields, uint8_t* pdu, uint8_t field, uint64_t value);
+        uint8_t numFields, uint8_t* pdu, uint32_t field, uint64_t value);
 
 #ifdef __cplusplus
 }
